@@ -36,6 +36,7 @@
 P_LIB_API pint
 p_atomic_int_get (const volatile pint *atomic)
 {
+	__atomic_thread_fence (__ATOMIC_SEQ_CST);
 	return (pint) __atomic_load_4 (PATOMIC_INT_CAST (atomic), __ATOMIC_SEQ_CST);
 }
 
@@ -104,6 +105,7 @@ p_atomic_int_xor (volatile puint	*atomic,
 P_LIB_API ppointer
 p_atomic_pointer_get (const volatile void *atomic)
 {
+	__atomic_thread_fence (__ATOMIC_SEQ_CST);
 #if (PLIBSYS_SIZEOF_VOID_P == 8)
 	return (ppointer) __atomic_load_8 (PATOMIC_SIZE_CAST ((const volatile psize *) atomic), __ATOMIC_SEQ_CST);
 #else
